@@ -69,6 +69,9 @@ def case(rng: Any, ctx: Ctx, index: int) -> None:
     b, fb = angles(rng, shape, dt)
     big = 'large' in fa or 'large' in fb
     tol = (1e-9 if f64 else 3e-4) * (40 if big else 1)
+    if rng.integers(4) == 0:
+        a, b = np.array(a), np.array(b)   # NumPy-array angles are accepted as well
+        fa += '/numpy'
     R, Rb, H, P = QURotationOperator(a, s), QURotationOperator(b, s), HWPOperator(s), LinearPolarizerOperator(s)
     x = gen.rand_input(rng, s)
     LOG.case_key(f'{kind}:{len(shape)}d:{fa}:{fb}', 'special' not in fa)
@@ -95,6 +98,8 @@ def case(rng: Any, ctx: Ctx, index: int) -> None:
         e = CompositionOperator(list(ops))
         compare('C15.identity', f'{name}/unreduced', ref, e, tol)
         r = e.reduce()
+        # reduce() must leave its operands alone: the unreduced expression still denotes the same product
+        compare('C15.identity', f'{name}/unreduced-after-reduce', ref, e, tol)
         LOG.count('C15.identity', f'{name}->{dense.skeleton(r)}')
         compare('C15.identity', f'{name}/reduced', ref, r, tol)
         # the documented identities themselves, on the reference matrices
